@@ -70,8 +70,8 @@ theorem geomSector_regular (g : List TrackRec) (H n sz : Nat) (hH : 0 < H) (hreg
     rw [hnone]
     simp [hlt]
 
-/-- `Img::read_sector` on a single-zone layout, in closed form -/
-theorem imgSector_closed (ln : LayoutName) (c h s : Nat)
+/-- `Img::read_sector` on a single-zone layout, in closed form (for a head the disk has; any other head is refused) -/
+theorem imgSector_closed (ln : LayoutName) (c h s : Nat) (hh : h < ln.layout.sidesMax)
     (hz : ln.layout.trackCount = lat ln.layout.cylinders 0 * ln.layout.sidesMax) :
     (do let p ← imgSector ln c h s; pure p.2 : Out Nat) =
       if c * ln.layout.sidesMax + h < lat ln.layout.cylinders 0 * ln.layout.sidesMax ∧ 1 ≤ s ∧ s ≤ lat ln.layout.sectors 0
@@ -80,7 +80,7 @@ theorem imgSector_closed (ln : LayoutName) (c h s : Nat)
   simp only []
   by_cases hcond : c * ln.layout.sidesMax + h < lat ln.layout.cylinders 0 * ln.layout.sidesMax ∧ 1 ≤ s ∧ s ≤ lat ln.layout.sectors 0
   · obtain ⟨h1, h2, h3⟩ := hcond
-    have hno : ¬ (c * ln.layout.sidesMax + h ≥ lat ln.layout.cylinders 0 * ln.layout.sidesMax ∨ s < 1 ∨ s > lat ln.layout.sectors 0) := by omega
+    have hno : ¬ (h ≥ ln.layout.sidesMax ∨ c * ln.layout.sidesMax + h ≥ lat ln.layout.cylinders 0 * ln.layout.sidesMax ∨ s < 1 ∨ s > lat ln.layout.sectors 0) := by omega
     rw [if_neg hno, if_pos ⟨h1, h2, h3⟩]
     unfold slice
     have hb : ((c * ln.layout.sidesMax + h) * lat ln.layout.sectors 0 + s - 1) * lat ln.layout.sectorSize 0 + lat ln.layout.sectorSize 0
@@ -98,7 +98,7 @@ theorem imgSector_closed (ln : LayoutName) (c h s : Nat)
         _ ≤ _ := Nat.mul_le_mul_right _ h4
     rw [if_pos hb]
     rfl
-  · have hyes : (c * ln.layout.sidesMax + h ≥ lat ln.layout.cylinders 0 * ln.layout.sidesMax ∨ s < 1 ∨ s > lat ln.layout.sectors 0) := by omega
+  · have hyes : (h ≥ ln.layout.sidesMax ∨ c * ln.layout.sidesMax + h ≥ lat ln.layout.cylinders 0 * ln.layout.sidesMax ∨ s < 1 ∨ s > lat ln.layout.sectors 0) := by omega
     rw [if_pos hyes, if_neg hcond]
     rfl
 
@@ -125,7 +125,7 @@ theorem img_imd_same_sectors :
   intro c h s hh
   have hlen := (img_imd_same_layout ln hln).2.2.1
   simp only [ibmSector]
-  rw [imgSector_closed ln c h s hH.2, geomSector_regular _ _ _ _ hH.1 (imd_geometry_regular ln hln) c h s hh, hlen]
+  rw [imgSector_closed ln c h s hh hH.2, geomSector_regular _ _ _ _ hH.1 (imd_geometry_regular ln hln) c h s hh, hlen]
 
 
 open A2Verif.Gen A2Verif.Model.AddrMap
@@ -221,7 +221,7 @@ theorem img_imd_same_fat_pieces :
         have : ∀ ln ∈ C07.ibmPatterns, ln.layout.trackCount = lat ln.layout.cylinders 0 * ln.layout.sidesMax := by decide +kernel
         exact this ln hln
       have e2 := geomSector_regular _ _ _ _ hsec.1 (imd_geometry_regular ln hln) c h l hh
-      have e3 := imgSector_closed ln c h l hH
+      have e3 := imgSector_closed ln c h l hh hH
       rw [hlay.2.2.1] at e2 ⊢
       by_cases hge : c * ln.layout.sidesMax ≥ lat ln.layout.cylinders 0 * ln.layout.sidesMax
       · have hno : ¬ (c * ln.layout.sidesMax + h < lat ln.layout.cylinders 0 * ln.layout.sidesMax ∧ 1 ≤ l ∧ l ≤ lat ln.layout.sectors 0) := by omega
